@@ -1,0 +1,35 @@
+//go:build verif
+
+package fasthttp
+
+// Thin exports for the /verif correspondence harness (property C20).
+
+// VerifGetRedirectURL runs getRedirectURL and also returns redirectURI.Host(),
+// the value the trust decision of stripSensitiveHeadersOnRedirect looks at.
+func VerifGetRedirectURL(baseURL string, location []byte, disablePathNormalizing bool) (string, []byte) {
+	u := AcquireURI()
+	defer ReleaseURI(u)
+	url := getRedirectURL(baseURL, location, disablePathNormalizing, u)
+	return url, append([]byte(nil), u.Host()...)
+}
+
+func VerifHostnameFromURLString(url string) []byte {
+	return append([]byte(nil), hostnameFromURLString(url)...)
+}
+
+func VerifHostnameFromHostPortBytes(hostPort []byte) []byte {
+	return append([]byte(nil), hostnameFromHostPortBytes(hostPort)...)
+}
+
+func VerifSplitHostPortBytes(hostPort []byte) ([]byte, []byte) {
+	h, p := splitHostPortBytes(hostPort)
+	return append([]byte(nil), h...), append([]byte(nil), p...)
+}
+
+func VerifIsDomainOrSubdomainBytes(sub, parent []byte) bool {
+	return isDomainOrSubdomainBytes(sub, parent)
+}
+
+func VerifShouldStripSensitiveHeadersOnRedirect(initialHost, redirectHostPort []byte) bool {
+	return shouldStripSensitiveHeadersOnRedirect(initialHost, redirectHostPort)
+}
